@@ -22,7 +22,6 @@ import glob
 import hashlib
 import json
 import os
-import random
 import re
 import subprocess
 import time
@@ -219,19 +218,6 @@ class Findings:
                 k = rep.match_known(kind, key)
                 if k is not None:
                     rep.known_hits[k["id"]].extend([key] * (e["count"] - 1))
-
-
-def shape(toks_text, hi, radius=2):
-    """the offending token and its neighbours (spellings of a class are representative, so this names a shape)"""
-    n = len(toks_text)
-    lo = max(0, hi - 1 - radius)
-    part = toks_text[lo:min(n, hi + radius)]
-    out = []
-    for i, t in enumerate(part, start=lo + 1):
-        out.append("[%s]" % t if i == hi else t)
-    if hi == n + 1:
-        out.append("[EOF]")
-    return " ".join(out)
 
 
 def first_syntax(diags):
@@ -623,7 +609,6 @@ def part_corpus(rep, tier, seed, fnd, stats, selftest):
         rel = os.path.relpath(m["file"], common.REPO)
         classes = [KIND_CLASS.get(x, "?") for x in o["k"]]
         # the spellings are not recorded (files are long): the classes name the shape
-        hi = v["hi"]
         ex = lambda msg, m=m, v=v, rel=rel: {"family": "corpus", "file": rel, "mut": m["mut"], "verdict": v, "message": msg,
                                                "source_tokens": "%s %s" % (rel, json.dumps(m["mut"])),
                                                "observation": {kk: vv for kk, vv in m["o"].items() if kk != "k"}}
@@ -847,13 +832,15 @@ def run_part(rep, tier, seed, selftest, parts=None, kinds=None):
     soft = collections.Counter()
     baseline = soft_baseline()
     new_shapes = sorted(k for k in d["notes"] if k.startswith("second generation") and k not in baseline)
-    for key in new_shapes[:3]:
+    for key in new_shapes[:2]:
         rep.note_drift("syntax (soft) NEW shape, not in checks/syntax_soft_baseline.json: %s (%d inputs), e.g. %s" %
                        (key, d["notes"][key], json.dumps(d["note_examples"].get(key, {}).get("source_tokens", ""))[:160]))
     for key, cnt in d["notes"].items():
         soft[re.sub(r": (expected|extension at) .*$", "", key)] += cnt
-    for key, cnt in soft.most_common(6):
-        rep.note_drift("syntax (soft, no property demands it): %s (%d inputs)" % (key, cnt))
+    if soft:
+        # one line (the report prints only its first few notes)
+        rep.note_drift("syntax (soft: no property demands agreement there; shapes in the evidence): " +
+                       "; ".join("%s (%d)" % kv for kv in soft.most_common(6)))
     cov = d["cov"]
     out = {
         "rule": "spec/SyntaxRules.tla: pushdown recogniser of the documented grammar over token classes, verdict valid | unc | invalid(lo, hi); "
@@ -871,6 +858,7 @@ def run_part(rep, tier, seed, selftest, parts=None, kinds=None):
         "discrepancies_all_properties": len(d["findings"]),
         "soft_notes": dict(soft),
         "soft_shapes_not_in_baseline": new_shapes,
+        "soft_shapes_second_generation": {k: v for k, v in sorted(d["notes"].items(), key=lambda kv: -kv[1]) if k.startswith("second generation")},
         "selftests": cov.get("selftests", {}),
         "samples": [x for p in ("sequences", "faults", "corpus") for x in cov.get(p, {}).get("samples", [])][:6],
         "per_focus": cov.get("faults", {}).get("per_focus", {}),
